@@ -1,6 +1,10 @@
 import ScryerModel.Model.Order
 import Mathlib.Tactic.Linarith
 import Mathlib.Tactic.Ring
+import Mathlib.Data.Nat.GCD.Basic
+import Mathlib.Algebra.Order.Field.Basic
+import Mathlib.Data.Rat.Cast.Order
+import Mathlib.Logic.Equiv.List
 /-!
 Helper lemmas for C13 (`Model/Order.lean`): the standard order is a total preorder on all
 terms, and a total order on normal ones.
@@ -211,7 +215,16 @@ theorem ratCmp_same_den (a b : Int) (D : Nat) (hD : 0 < D) :
 theorem fltCmp_eq_optCmp (x y : Nat) : fltCmp x y = optCmp (fltScaled x) (fltScaled y) := by
   unfold fltCmp fltToRat
   cases hx : fltScaled x <;> cases hy : fltScaled y <;> simp only [Option.map, optCmp]
-  exact ratCmp_same_den _ _ _ (Nat.pos_of_ne_zero (by positivity))
+  exact ratCmp_same_den _ _ _ (Nat.two_pow_pos 1075)
+
+theorem fltToRat_den_pos (x : Nat) (a : Int × Nat) (h : fltToRat x = some a) : 0 < a.2 := by
+  unfold fltToRat at h
+  cases hs : fltScaled x with
+  | none => rw [hs] at h; exact absurd h (by intro h'; cases h')
+  | some n =>
+    rw [hs] at h
+    simp only [Option.map, Option.some.injEq] at h
+    rw [← h]; exact Nat.pos_of_ne_zero (by positivity)
 
 theorem optCmp_refl (a : Option Int) : optCmp a a = .eq := by
   cases a <;> simp [optCmp]
@@ -230,6 +243,102 @@ theorem fltCmp_swap (x y : Nat) : fltCmp y x = (fltCmp x y).swap := by
   rw [fltCmp_eq_optCmp, fltCmp_eq_optCmp, optCmp_swap]
 theorem fltCmp_tri (x y z : Nat) : Tri (fltCmp x y) (fltCmp y z) (fltCmp x z) := by
   simp only [fltCmp_eq_optCmp]; exact optCmp_tri _ _ _
+
+/-- canonical double: 64 bits, not `-0.0`, not a NaN. -/
+def FltCanon (b : Nat) : Prop :=
+  b < 2 ^ 64 ∧ b ≠ 2 ^ 63 ∧ ¬ (fltExp b = 2047 ∧ fltMant b ≠ 0)
+
+theorem mag_lt (s1 s2 e1 e2 : Nat) (h1 : s1 < 2 ^ 53) (h2 : 2 ^ 52 ≤ s2) (he : e1 < e2) :
+    s1 * 2 ^ e1 < s2 * 2 ^ e2 := by
+  calc s1 * 2 ^ e1 < 2 ^ 53 * 2 ^ e1 := Nat.mul_lt_mul_of_pos_right h1 (by positivity)
+    _ = 2 ^ 52 * 2 ^ (e1 + 1) := by ring
+    _ ≤ 2 ^ 52 * 2 ^ e2 := Nat.mul_le_mul_left _ (Nat.pow_le_pow_right (by norm_num) he)
+    _ ≤ s2 * 2 ^ e2 := Nat.mul_le_mul_right _ h2
+
+/-- magnitude (scaled by 2^1075) as a function of exponent field and mantissa. -/
+def fltMag (e m : Nat) : Nat := (if e = 0 then m else m + 2 ^ 52) * 2 ^ (if e = 0 then 1 else e)
+
+theorem fltMag_lt_of_exp_lt (e1 m1 e2 m2 : Nat) (h1 : m1 < 2 ^ 52) (h2 : m2 < 2 ^ 52)
+    (he : e1 < e2) : fltMag e1 m1 < fltMag e2 m2 := by
+  unfold fltMag
+  have he2 : e2 ≠ 0 := by omega
+  simp only [he2, if_false]
+  by_cases h0 : e1 = 0
+  · simp only [h0, if_true]
+    by_cases h21 : e2 = 1
+    · subst h21
+      have : (0:Nat) < 2 ^ 1 := by norm_num
+      exact Nat.mul_lt_mul_of_pos_right (by omega) this
+    · exact mag_lt _ _ _ _ (by omega) (by omega) (by omega)
+  · simp only [h0, if_false]
+    exact mag_lt _ _ _ _ (by omega) (by omega) he
+
+theorem fltMag_inj (e1 m1 e2 m2 : Nat) (h1 : m1 < 2 ^ 52) (h2 : m2 < 2 ^ 52)
+    (h : fltMag e1 m1 = fltMag e2 m2) : e1 = e2 ∧ m1 = m2 := by
+  rcases lt_trichotomy e1 e2 with he | he | he
+  · have := fltMag_lt_of_exp_lt e1 m1 e2 m2 h1 h2 he; omega
+  · subst he
+    refine ⟨rfl, ?_⟩
+    unfold fltMag at h
+    have hp : 0 < 2 ^ (if e1 = 0 then 1 else e1) := by positivity
+    have := Nat.eq_of_mul_eq_mul_right hp h
+    split at this <;> omega
+  · have := fltMag_lt_of_exp_lt e2 m2 e1 m1 h2 h1 he; omega
+
+theorem fltScaled_eq (b : Nat) (h : ¬ (fltExp b = 2047 ∧ fltMant b ≠ 0)) :
+    fltScaled b = some (if fltSign b then -((fltMag (fltExp b) (fltMant b) : Nat) : Int)
+                        else ((fltMag (fltExp b) (fltMant b) : Nat) : Int)) := by
+  unfold fltScaled fltMag
+  simp only [h, if_false]
+
+theorem fltMag_eq_zero (e m : Nat) (h : fltMag e m = 0) : e = 0 ∧ m = 0 := by
+  unfold fltMag at h
+  have hp : 0 < 2 ^ (if e = 0 then 1 else e) := by positivity
+  rcases Nat.mul_eq_zero.mp h with h0 | h0
+  · split at h0 <;> omega
+  · omega
+
+theorem flt_decomp (x : Nat) (hx : x < 2 ^ 64) :
+    x = (x / 2 ^ 63 % 2) * 2 ^ 63 + fltExp x * 2 ^ 52 + fltMant x := by
+  unfold fltExp fltMant; omega
+
+theorem fltScaled_inj (x y : Nat) (hx : FltCanon x) (hy : FltCanon y)
+    (h : fltScaled x = fltScaled y) : x = y := by
+  obtain ⟨hx1, hx2, hx3⟩ := hx
+  obtain ⟨hy1, hy2, hy3⟩ := hy
+  rw [fltScaled_eq x hx3, fltScaled_eq y hy3, Option.some.injEq] at h
+  have mx : fltMant x < 2 ^ 52 := by unfold fltMant; omega
+  have my : fltMant y < 2 ^ 52 := by unfold fltMant; omega
+  have dx := flt_decomp x hx1
+  have dy := flt_decomp y hy1
+  have sx : fltSign x = true ↔ x / 2 ^ 63 % 2 = 1 := by unfold fltSign; simp
+  have sy : fltSign y = true ↔ y / 2 ^ 63 % 2 = 1 := by unfold fltSign; simp
+  -- magnitudes are equal
+  have hmag : fltMag (fltExp x) (fltMant x) = fltMag (fltExp y) (fltMant y) := by
+    split at h <;> split at h <;> omega
+  obtain ⟨he, hm⟩ := fltMag_inj _ _ _ _ mx my hmag
+  by_cases hz : fltMag (fltExp x) (fltMant x) = 0
+  · -- both are zeros; -0.0 is excluded
+    obtain ⟨e0, m0⟩ := fltMag_eq_zero _ _ hz
+    obtain ⟨e0', m0'⟩ := fltMag_eq_zero _ _ (hmag ▸ hz)
+    omega
+  · have hs : fltSign x = fltSign y := by
+      cases hsx : fltSign x <;> cases hsy : fltSign y <;>
+        simp only [hsx, hsy, Bool.false_eq_true, if_true, if_false] at h <;>
+        first | rfl | (exfalso; omega)
+    have hbit : (x / 2 ^ 63 % 2 = 1 ↔ y / 2 ^ 63 % 2 = 1) := by
+      rw [← sx, ← sy, hs]
+    omega
+
+theorem fltCmp_eq_iff (x y : Nat) (hx : FltCanon x) (hy : FltCanon y) :
+    fltCmp x y = .eq ↔ x = y := by
+  constructor
+  · intro h
+    rw [fltCmp_eq_optCmp, fltScaled_eq x hx.2.2, fltScaled_eq y hy.2.2] at h
+    simp only [optCmp, Int.compare_eq_eq] at h
+    apply fltScaled_inj x y hx hy
+    rw [fltScaled_eq x hx.2.2, fltScaled_eq y hy.2.2, h]
+  · rintro rfl; exact fltCmp_refl x
 
 /-! ### atoms: UTF-8 byte order = code point order -/
 
@@ -301,6 +410,356 @@ theorem codes_lt (s : String) : ∀ x ∈ codes s, x < 0x110000 := by
 
 theorem atomCmpBytes_eq (s t : String) : atomCmpBytes s t = atomCmp s t :=
   utf8s_cmp _ _ (codes_lt s) (codes_lt t)
+
+
+/-! ### atoms -/
+theorem atomCmp_refl (s : String) : atomCmp s s = .eq :=
+  cmpList_refl _ (fun _ _ => Nat.compare_eq_eq.mpr rfl)
+theorem atomCmp_swap (s t : String) : atomCmp t s = (atomCmp s t).swap :=
+  cmpList_swap _ _ (fun a _ b _ => (Nat.compare_swap a b).symm)
+theorem atomCmp_tri (s t u : String) : Tri (atomCmp s t) (atomCmp t u) (atomCmp s u) :=
+  cmpList_tri _ _ _ (fun a _ b _ c _ => tri_nat a b c)
+theorem map_toNat_inj : ∀ (l l' : List Char), l.map Char.toNat = l'.map Char.toNat → l = l'
+  | [], [] => fun _ => rfl
+  | [], _ :: _ => fun h => by simp at h
+  | _ :: _, [] => fun h => by simp at h
+  | a :: l, b :: l' => fun h => by
+    simp only [List.map_cons, List.cons.injEq] at h
+    rw [Char.toNat_inj.mp h.1, map_toNat_inj l l' h.2]
+
+theorem atomCmp_eq_iff (s t : String) : atomCmp s t = .eq ↔ s = t := by
+  unfold atomCmp
+  rw [cmpList_eq_iff _ _ (fun a _ b _ => Nat.compare_eq_eq)]
+  constructor
+  · intro h
+    apply String.ext
+    exact map_toNat_inj _ _ h
+  · rintro rfl; rfl
+
+/-! ### terms -/
+
+theorem term_ind {P : Term → Prop}
+    (hvar : ∀ x, P (.var x)) (hint : ∀ v, P (.int v)) (hrat : ∀ n d, P (.rat n d))
+    (hflt : ∀ b, P (.flt b)) (hatom : ∀ s, P (.atom s))
+    (hstr : ∀ f as, (∀ a ∈ as, P a) → P (.str f as)) : ∀ t, P t := by
+  intro t
+  exact Term.rec (motive_1 := P) (motive_2 := fun as => ∀ a ∈ as, P a)
+    hvar hint hrat hflt hatom (fun f as ih => hstr f as ih) (by simp)
+    (fun a as ha has => by
+      intro x hx
+      rcases List.mem_cons.mp hx with h | h
+      · exact h ▸ ha
+      · exact has x h) t
+
+theorem argsCompare_eq_cmpList (age : String → Nat) (as bs : List Term) :
+    argsCompare age as bs = cmpList (termCompare age) as bs := by
+  induction as generalizing bs with
+  | nil => cases bs <;> simp [argsCompare]
+  | cons a as ih => cases bs <;> simp [argsCompare, ih]
+
+/-- comparison of two terms of the same category. -/
+def sameCat (age : String → Nat) : Term → Term → Ordering
+  | .str f as, .str g bs =>
+      (compare as.length bs.length).then ((atomCmp f g).then (cmpList (termCompare age) as bs))
+  | a, b => leafCompare age a b
+
+theorem termCompare_eq (age : String → Nat) (a b : Term) :
+    termCompare age a b = (compare (cat a) (cat b)).then (sameCat age a b) := by
+  cases a <;> cases b <;> simp [termCompare, sameCat, cat, argsCompare_eq_cmpList]
+
+
+mutual
+/-- every rational inside the term has a positive denominator. -/
+def DenPos : Term → Prop
+  | .rat _ d => 0 < d
+  | .str _ as => DenPosL as
+  | _ => True
+def DenPosL : List Term → Prop
+  | [] => True
+  | a :: as => DenPos a ∧ DenPosL as
+end
+
+theorem denPosL_iff (as : List Term) : DenPosL as ↔ ∀ a ∈ as, DenPos a := by
+  induction as with
+  | nil => simp [DenPosL]
+  | cons a as ih => simp [DenPosL, ih]
+
+theorem leafCompare_swap (age : String → Nat) (a b : Term) :
+    leafCompare age b a = (leafCompare age a b).swap := by
+  cases a <;> cases b <;> simp only [leafCompare] <;>
+    first
+    | exact (Nat.compare_swap _ _).symm
+    | exact (fltCmp_swap _ _)
+    | exact (atomCmp_swap _ _)
+    | exact (ratCmp_swap _ _)
+
+theorem termCompare_refl (age : String → Nat) : ∀ t, termCompare age t t = .eq := by
+  apply term_ind
+  · intro x; simp [termCompare_eq, sameCat, leafCompare]
+  · intro v; simp [termCompare_eq, sameCat, leafCompare, ratCmp_refl]
+  · intro n d; simp [termCompare_eq, sameCat, leafCompare, ratCmp_refl]
+  · intro b; simp [termCompare_eq, sameCat, leafCompare, fltCmp_refl]
+  · intro s; simp [termCompare_eq, sameCat, leafCompare, atomCmp_refl]
+  · intro f as ih
+    simp [termCompare_eq, sameCat, atomCmp_refl, cmpList_refl as ih]
+
+theorem termCompare_swap (age : String → Nat) :
+    ∀ a b, termCompare age b a = (termCompare age a b).swap := by
+  apply term_ind
+  case hstr =>
+    intro f as ih b
+    cases b with
+    | str g bs =>
+      simp only [termCompare_eq, sameCat, Ordering.swap_then, Nat.compare_swap]
+      rw [atomCmp_swap f g, cmpList_swap as bs (fun a ha b _ => ih a ha b)]
+    | _ => simp only [termCompare_eq, sameCat, Ordering.swap_then, Nat.compare_swap,
+              leafCompare_swap age (.str f as)]
+  all_goals
+    intros
+    rename_i b
+    cases b <;> simp only [termCompare_eq, sameCat, Ordering.swap_then, Nat.compare_swap] <;>
+      rw [leafCompare_swap]
+
+
+theorem numVal_pos (a : Term) (h : DenPos a) : 0 < (numVal a).2 := by
+  cases a <;> simp_all [numVal, DenPos]
+
+theorem leaf_tri (age : String → Nat) (a b c : Term) (hab : cat a = cat b) (hbc : cat b = cat c)
+    (ha : DenPos a) (hb : DenPos b) (hc : DenPos c) :
+    Tri (leafCompare age a b) (leafCompare age b c) (leafCompare age a c) := by
+  have pa := numVal_pos a ha
+  have pb := numVal_pos b hb
+  have pc := numVal_pos c hc
+  cases a <;> cases b <;> simp only [cat] at hab <;> try omega
+  all_goals
+    cases c <;> simp only [cat] at hbc <;> try omega
+  all_goals
+    simp only [leafCompare]
+    first
+    | exact tri_nat _ _ _
+    | exact fltCmp_tri _ _ _
+    | exact atomCmp_tri _ _ _
+    | exact ratCmp_tri _ _ _ pa pb pc
+
+theorem sameCat_leaf (age : String → Nat) (a b : Term) (h : cat a ≠ 4) :
+    sameCat age a b = leafCompare age a b := by
+  cases a <;> cases b <;> simp [sameCat, cat] at h ⊢
+
+theorem tri_of_leaf (age : String → Nat) (a b c : Term) (h4 : cat a ≠ 4)
+    (ha : DenPos a) (hb : DenPos b) (hc : DenPos c) :
+    Tri (termCompare age a b) (termCompare age b c) (termCompare age a c) := by
+  simp only [termCompare_eq]
+  refine (tri_nat _ _ _).then' (fun hab hbc => ?_)
+  rw [Nat.compare_eq_eq] at hab hbc
+  rw [sameCat_leaf age a b h4, sameCat_leaf age b c (hab ▸ h4), sameCat_leaf age a c h4]
+  exact leaf_tri age a b c hab hbc ha hb hc
+
+theorem termCompare_tri (age : String → Nat) :
+    ∀ a b c, DenPos a → DenPos b → DenPos c →
+      Tri (termCompare age a b) (termCompare age b c) (termCompare age a c) := by
+  apply term_ind
+  case hstr =>
+    intro f as ih b c ha hb hc
+    simp only [termCompare_eq]
+    refine (tri_nat _ _ _).then' (fun hab hbc => ?_)
+    rw [Nat.compare_eq_eq] at hab hbc
+    cases b with
+    | str g bs =>
+      cases c with
+      | str h cs =>
+        simp only [sameCat]
+        refine (tri_nat _ _ _).then ((atomCmp_tri _ _ _).then ?_)
+        simp only [DenPos, denPosL_iff] at ha hb hc
+        exact cmpList_tri as bs cs (fun x hx y hy z hz => ih x hx y z (ha x hx) (hb y hy) (hc z hz))
+      | _ => simp [cat] at hbc
+    | _ => simp [cat] at hab
+  all_goals
+    intros
+    exact tri_of_leaf age _ _ _ (by simp [cat]) ‹_› ‹_› ‹_›
+
+
+/-! ### `compare = eq` is structural identity on normal terms -/
+
+theorem rat_eq_of_cross (n1 n2 : Int) (d1 d2 : Nat)
+    (h1 : Nat.gcd n1.natAbs d1 = 1) (h2 : Nat.gcd n2.natAbs d2 = 1) (p1 : 0 < d1)
+    (h : n1 * (d2 : Int) = n2 * (d1 : Int)) : n1 = n2 ∧ d1 = d2 := by
+  have hn : n1.natAbs * d2 = n2.natAbs * d1 := by
+    have := congrArg Int.natAbs h
+    simpa [Int.natAbs_mul] using this
+  have a1 : d1 ∣ d2 := by
+    have : d1 ∣ n1.natAbs * d2 := ⟨n2.natAbs, by rw [hn]; ring⟩
+    exact (Nat.Coprime.dvd_of_dvd_mul_left (Nat.Coprime.symm h1) this)
+  have a2 : d2 ∣ d1 := by
+    have : d2 ∣ n2.natAbs * d1 := ⟨n1.natAbs, by rw [← hn]; ring⟩
+    exact (Nat.Coprime.dvd_of_dvd_mul_left (Nat.Coprime.symm h2) this)
+  have hd : d1 = d2 := Nat.dvd_antisymm a1 a2
+  subst hd
+  refine ⟨?_, rfl⟩
+  have hp : ((d1 : Nat) : Int) ≠ 0 := by exact_mod_cast (Nat.pos_iff_ne_zero.mp p1)
+  exact Int.eq_of_mul_eq_mul_right hp h
+
+mutual
+/-- normal form: rationals in lowest terms with denominator ≥ 2 (a rational with
+    denominator 1 is an integer for scryer), floats canonical (`FltCanon`). -/
+def Normal : Term → Prop
+  | .rat n d => 2 ≤ d ∧ Nat.gcd n.natAbs d = 1
+  | .flt b => FltCanon b
+  | .str _ as => NormalL as
+  | _ => True
+def NormalL : List Term → Prop
+  | [] => True
+  | a :: as => Normal a ∧ NormalL as
+end
+
+theorem normalL_iff (as : List Term) : NormalL as ↔ ∀ a ∈ as, Normal a := by
+  induction as with
+  | nil => simp [NormalL]
+  | cons a as ih => simp [NormalL, ih]
+
+theorem termCompare_eq_iff (age : String → Nat) (hage : Function.Injective age) :
+    ∀ a b, Normal a → Normal b → (termCompare age a b = .eq ↔ a = b) := by
+  apply term_ind
+  · intro x b _ _
+    cases b <;> simp [termCompare_eq, sameCat, leafCompare, cat, Ordering.then_eq_eq]
+    exact hage.eq_iff
+  · intro v b _ hb
+    cases b <;> simp [termCompare_eq, sameCat, leafCompare, cat, Ordering.then_eq_eq, ratCmp, numVal]
+    rename_i n d
+    simp only [Normal] at hb
+    intro h
+    have := rat_eq_of_cross v n 1 d (by simp) hb.2 (by norm_num) (by simpa using h)
+    omega
+  · intro n d b ha hb
+    simp only [Normal] at ha
+    cases b <;> simp [termCompare_eq, sameCat, leafCompare, cat, Ordering.then_eq_eq, ratCmp, numVal]
+    · rename_i v
+      intro h
+      have := rat_eq_of_cross n v d 1 ha.2 (by simp) (by omega) (by simpa using h)
+      omega
+    · rename_i n' d'
+      simp only [Normal] at hb
+      constructor
+      · intro h
+        exact rat_eq_of_cross n n' d d' ha.2 hb.2 (by omega) h
+      · rintro ⟨rfl, rfl⟩; rfl
+  · intro x b ha hb
+    cases b <;> simp [termCompare_eq, sameCat, leafCompare, cat, Ordering.then_eq_eq]
+    simp only [Normal] at ha hb
+    exact fltCmp_eq_iff _ _ ha hb
+  · intro s b _ _
+    cases b <;> simp [termCompare_eq, sameCat, leafCompare, cat, Ordering.then_eq_eq]
+    exact atomCmp_eq_iff _ _
+  · intro f as ih b ha hb
+    cases b <;> simp [termCompare_eq, sameCat, leafCompare, cat, Ordering.then_eq_eq]
+    rename_i g bs
+    simp only [Normal, normalL_iff] at ha hb
+    rw [atomCmp_eq_iff, cmpList_eq_iff as bs (fun x hx y hy => ih x hx y (ha x hx) (hb y hy))]
+    constructor
+    · rintro ⟨_, h2, h3⟩; exact ⟨h2, h3⟩
+    · rintro ⟨h2, h3⟩; exact ⟨by rw [h3], h2, h3⟩
+
+/-! ### rationals: `ratCmp` is the order of the quotients in ℚ -/
+
+theorem ratCmp_lt_iff (a b : Int × Nat) (ha : 0 < a.2) (hb : 0 < b.2) :
+    ratCmp a b = .lt ↔ (a.1 : ℚ) / (a.2 : ℚ) < (b.1 : ℚ) / (b.2 : ℚ) := by
+  have ha' : (0 : ℚ) < (a.2 : ℚ) := by exact_mod_cast ha
+  have hb' : (0 : ℚ) < (b.2 : ℚ) := by exact_mod_cast hb
+  unfold ratCmp
+  rw [Int.compare_eq_lt, div_lt_div_iff₀ ha' hb']
+  constructor
+  · intro h; exact_mod_cast h
+  · intro h; exact_mod_cast h
+
+theorem ratCmp_eq_iff (a b : Int × Nat) (ha : 0 < a.2) (hb : 0 < b.2) :
+    ratCmp a b = .eq ↔ (a.1 : ℚ) / (a.2 : ℚ) = (b.1 : ℚ) / (b.2 : ℚ) := by
+  have ha' : (a.2 : ℚ) ≠ 0 := by exact_mod_cast (Nat.pos_iff_ne_zero.mp ha)
+  have hb' : (b.2 : ℚ) ≠ 0 := by exact_mod_cast (Nat.pos_iff_ne_zero.mp hb)
+  unfold ratCmp
+  rw [Int.compare_eq_eq, div_eq_div_iff ha' hb']
+  constructor
+  · intro h; exact_mod_cast h
+  · intro h; exact_mod_cast h
+
+theorem ratCmp_gt_iff (a b : Int × Nat) (ha : 0 < a.2) (hb : 0 < b.2) :
+    ratCmp a b = .gt ↔ (b.1 : ℚ) / (b.2 : ℚ) < (a.1 : ℚ) / (a.2 : ℚ) := by
+  rw [← ratCmp_lt_iff b a hb ha, ratCmp_swap b a]
+  cases ratCmp b a <;> simp
+
+/-! ### an injective age function exists (non-vacuity of the `Injective age` hypothesis) -/
+
+theorem exists_injective_age : ∃ age : String → Nat, Function.Injective age := by
+  refine ⟨fun s => Encodable.encode (s.toList.map Char.toNat), ?_⟩
+  intro s t h
+  have := Encodable.encode_injective h
+  exact String.ext (map_toNat_inj _ _ this)
+
+/-! ### lists and strings -/
+
+theorem termCompare_of_cat_lt (age : String → Nat) (a b : Term) (h : cat a < cat b) :
+    termCompare age a b = .lt := by
+  rw [termCompare_eq, Nat.compare_eq_lt.mpr h]; rfl
+
+theorem termCompare_of_cat_gt (age : String → Nat) (a b : Term) (h : cat b < cat a) :
+    termCompare age a b = .gt := by
+  rw [termCompare_eq, Nat.compare_eq_gt.mpr h]; rfl
+
+theorem termCompare_str (age : String → Nat) (f g : String) (as bs : List Term) :
+    termCompare age (.str f as) (.str g bs) =
+      (compare as.length bs.length).then ((atomCmp f g).then (cmpList (termCompare age) as bs)) := by
+  simp [termCompare_eq, sameCat, cat]
+
+theorem termCompare_cons (age : String → Nat) (x xs y ys : Term) :
+    termCompare age (Term.cons x xs) (Term.cons y ys) =
+      (termCompare age x y).then (termCompare age xs ys) := by
+  simp [Term.cons, termCompare_str, atomCmp_refl]
+
+theorem atomCmp_singleton (c d : Char) :
+    atomCmp (String.singleton c) (String.singleton d) = compare c.toNat d.toNat := by
+  simp [atomCmp, codes]
+
+theorem termCompare_atom (age : String → Nat) (s t : String) :
+    termCompare age (.atom s) (.atom t) = atomCmp s t := by
+  simp [termCompare_eq, sameCat, cat, leafCompare]
+
+theorem ofChars_cons (c : Char) (cs : List Char) (tl : Term) :
+    Term.ofChars (c :: cs) tl = Term.cons (.atom (String.singleton c)) (Term.ofChars cs tl) := rfl
+
+/-- two strings compare as their code point sequences. -/
+theorem termCompare_ofChars (age : String → Nat) (cs ds : List Char) :
+    termCompare age (Term.ofChars cs) (Term.ofChars ds)
+      = cmpList compare (cs.map Char.toNat) (ds.map Char.toNat) := by
+  induction cs generalizing ds with
+  | nil =>
+    cases ds with
+    | nil => exact termCompare_refl age _
+    | cons d ds => exact termCompare_of_cat_lt age _ _ (by simp [Term.cons, Term.ofChars, Term.ofList, Term.nil, cat])
+  | cons c cs ih =>
+    cases ds with
+    | nil => exact termCompare_of_cat_gt age _ _ (by simp [Term.cons, Term.ofChars, Term.ofList, Term.nil, cat])
+    | cons d ds =>
+      rw [ofChars_cons, ofChars_cons, termCompare_cons, termCompare_atom, atomCmp_singleton, ih]
+      rfl
+
+/-- a common prefix of two partial strings is skipped (what `compare_pstr_slices` does
+    with `Continue`). -/
+theorem termCompare_ofChars_append (age : String → Nat) (p cs ds : List Char) (t1 t2 : Term) :
+    termCompare age (Term.ofChars (p ++ cs) t1) (Term.ofChars (p ++ ds) t2)
+      = termCompare age (Term.ofChars cs t1) (Term.ofChars ds t2) := by
+  induction p with
+  | nil => rfl
+  | cons x p ih =>
+    simp only [List.cons_append, ofChars_cons, termCompare_cons, termCompare_refl, ih]
+    rfl
+
+/-- the first differing character decides, by code point. -/
+theorem termCompare_ofChars_ne (age : String → Nat) (c d : Char) (h : c ≠ d) (cs ds : List Char)
+    (t1 t2 : Term) :
+    termCompare age (Term.ofChars (c :: cs) t1) (Term.ofChars (d :: ds) t2)
+      = compare c.toNat d.toNat := by
+  rw [ofChars_cons, ofChars_cons, termCompare_cons, termCompare_atom, atomCmp_singleton]
+  have : compare c.toNat d.toNat ≠ .eq := by
+    rw [Ne, Nat.compare_eq_eq, Char.toNat_inj]; exact h
+  cases hc : compare c.toNat d.toNat <;> simp_all
 
 
 end Scryer.Order
